@@ -52,7 +52,7 @@ def disPayload (pool : List Obj) : List (Obj × Obj) → Disambig.Payload
 
 /-- `is_supported_union`: every member is an attrs class or a dataclass -/
 def unionMembersOk (w : World) (cs : List Nat) : Bool :=
-  cs.all (fun c => match w.cls? c with | some k => k.kind != .typeddict | Option.none => false)
+  cs.all (fun c => match w.cls? c with | some k => k.kind != .typeddict && k.kind != .namedtuple | Option.none => false)
 
 /-- `structure(o, Union[cs…(, None)])` as far as the choice of the member goes. -/
 def unionPick (w : World) (cs : List Nat) (hasNone : Bool) (o : Obj) : Disambig.Outcome :=
